@@ -655,6 +655,24 @@ fn partial_liquidation(
     } = get_position_notional_unrealized_pnl(deps.as_ref(), &position, PnlCalcOption::SpotPrice)
         .unwrap();
 
+    // the partial path takes the slice's realised PnL and the penalty out of the position's own
+    // margin and open notional; a position that cannot afford that (under water, or too far in
+    // profit for its open notional) is liquidated whole instead, where shortfalls are covered
+    let realized_pnl = (unrealized_pnl * Integer::new_positive(config.partial_liquidation_ratio))
+        / Integer::new_positive(config.decimals);
+    let penalty = current_notional
+        .checked_mul(config.liquidation_fee)?
+        .checked_div(config.decimals)?;
+    let margin_covers = position.margin >= realized_pnl.value.checked_add(penalty)?;
+    let notional_covers = if position.direction == Direction::AddToAmm {
+        position.notional >= current_notional.checked_add(realized_pnl.value)?
+    } else {
+        position.notional.checked_add(realized_pnl.value)? >= current_notional
+    };
+    if !margin_covers || !notional_covers {
+        return internal_close_position(deps, &position, quote_asset_limit, LIQUIDATION_REPLY_ID);
+    }
+
     let side = position_to_side(position.size);
 
     store_tmp_swap(
